@@ -1,7 +1,7 @@
 (* C13 — the endpoint ID is the one last assigned: Set Endpoint ID (set / force) assigns both halves, nothing else
    processed changes them, Get Endpoint ID reports the current one.  Property theorems only. *)
 Require Import Base Crc Bitfield Headers Encode Decode Process Ops Spec Judge.
-Require Import Hist StepsSimple StepsEncode DecodeChar ProcessChar StepsProcess.
+Require Import Hist StepsSimple StepsEncode DecodeChar ProcessChar StepsProcess Extra.
 Open Scope N_scope.
 
 (* (1) as the correspondence oracle states it: in every well-formed history, after every operation both get_eid()
@@ -28,6 +28,26 @@ Theorem C13_only_assignment_changes_eid : forall ovf c p buf, bytes_ok p ->
   assigning p = true /\ c_eid_req c' = nth 12 p 0 /\ c_eid_resp c' = nth 12 p 0.
 Proof. exact StepsProcess.C13_only_assignment_changes_eid. Qed.
 
+(* (4) the abstract EID machine over whole histories.  Extra.eid_effect is what one operation does to the pair
+   (request-half EID, response-half EID): set_eid on a half replaces that half, processing an assigning Set
+   Endpoint ID request replaces both by byte 12 of the request, everything else leaves the pair alone;
+   Extra.eid_spec folds it over a history from (0, 0).  After ANY well-formed history, in either overflow mode,
+   whatever panicked or failed on the way, the two EIDs of the context are what this machine says. *)
+Theorem C13_eid_is_last_assigned : forall ovf g ops, wf_cfg g -> Forall wf_op ops ->
+  let c := run_ctx ovf (ctx_of g) ops in (c_eid_req c, c_eid_resp c) = eid_spec ops.
+Proof. exact eid_is_last_assigned. Qed.
+
+(* (5) the same without the fold: in a history that never calls set_eid, both EIDs are the EID byte of the LAST
+   assigning request processed (nothing assigning after it), and 0, the initial value, if there was none *)
+Theorem C13_eid_is_last_assigning_packet : forall ovf g ops, wf_cfg g -> Forall wf_op ops ->
+  (forall h v, ~ In (OSetEid h v) ops) ->
+  let c := run_ctx ovf (ctx_of g) ops in
+  (forall pre p b post, ops = pre ++ OProcess p b :: post -> assigning p = true ->
+     (forall q b', In (OProcess q b') post -> assigning q = false) ->
+     c_eid_req c = nth 12 p 0 /\ c_eid_resp c = nth 12 p 0) /\
+  ((forall q b', In (OProcess q b') ops -> assigning q = false) -> c_eid_req c = 0 /\ c_eid_resp c = 0).
+Proof. exact eid_is_last_assigning_packet. Qed.
+
 (* non-vacuity: Get EID (tag 5), Set EID 0x56 (tag 3), Get EID again, Set Discovered Flag (tag 4), set_eid on the
    request half, a Set EID into a 10-byte buffer (the encoder panics, the EIDs are assigned all the same: tag 9),
    a vendor support request (tag 6) and a pure decode (tag 8) *)
@@ -46,6 +66,20 @@ Example C13_nonvacuous :
   map snd (run true (ctx_of g) ops) = [(0, 0); (86, 86); (86, 86); (86, 86); (9, 86); (86, 86); (86, 86); (86, 86)].
 Proof. vm_compute. split; reflexivity. Qed.
 
+(* non-vacuity of (4): the abstract machine on the history above, prefix by prefix *)
+Example C13_eid_spec_nonvacuous :
+  let geid := [32; 15; 8; 71; 1; 16; 35; 200; 0; 128; 2; 250] in
+  let seid := [32; 15; 10; 71; 1; 16; 35; 200; 0; 128; 1; 0; 86; 176] in
+  let ops := [OProcess geid (repeat 0 64); OProcess seid (repeat 0 64); OProcess geid (repeat 0 64);
+              OProcess [32; 15; 10; 71; 1; 16; 35; 200; 0; 128; 1; 3; 87; 136] (repeat 0 64);
+              OSetEid true 9; OProcess seid (repeat 0 10);
+              OProcess [32; 15; 9; 71; 1; 16; 35; 200; 0; 128; 6; 0; 212] (repeat 0 64); ODecode geid] in
+  map (fun k => eid_spec (firstn k ops)) (seq 1 8)
+    = [(0, 0); (86, 86); (86, 86); (86, 86); (9, 86); (86, 86); (86, 86); (86, 86)].
+Proof. vm_compute. reflexivity. Qed.
+
 Print Assumptions C13_oracle_holds_on_model.
 Print Assumptions C13_eids_after_process.
 Print Assumptions C13_only_assignment_changes_eid.
+Print Assumptions C13_eid_is_last_assigned.
+Print Assumptions C13_eid_is_last_assigning_packet.
